@@ -59,6 +59,11 @@ def impl(py):
         while x.child:
             x = x.child
         return gid.get(id(x), -1)
+    if len(py["ops"]) % 2 == 0:
+        # an engine that existed (and worked) BEFORE the observed one was constructed
+        early = Force({"algorithm": "simple", "maxPos": 90, "density": 0.5, "nodeSpacing": 7, "stubWidth": 4})
+        early.nodes([Node(6 * i, 11) for i in range(8)])
+        early.compute()
     force = Force(py.get("init_opts"))
     eff = dict(py.get("init_opts") or {})
     cur = None
